@@ -25,6 +25,7 @@ structure Cfg.Good (c : Cfg) : Prop extends Cfg.BootGood c where
   sigCont : c.sigCont = SIGCONT
   sigTerm : c.sigTerm = SIGTERM
   sigKill : c.sigKill = SIGKILL
+  affinityAll : c.affinityAll = CPU_SETSIZE
 
 /-! ### invariant -/
 
